@@ -24,9 +24,12 @@ Inductive verdict :=
 | VOk
 | VTooBig (fo plen : N)            (* offset + length beyond 65535 *)
 | VUnaligned (fo plen : N)         (* non-final fragment whose length is not a multiple of 8 *)
-| VConflict (prev_end e : N)       (* contradicts the total length announced earlier *)
-| VLateEnd (hi e : N)              (* Spec only: a final fragment announces a total length below
-                                      data that was already accepted (finding F8: the code accepts) *)
+| VConflict (prev_end e : N)       (* the fragment contradicts what is known about the total length:
+                                      - the total length prev_end was announced earlier and the
+                                        fragment ends beyond it or announces another one, or
+                                      - the fragment announces the total length e although data up
+                                        to offset prev_end > e was accepted earlier (the datagram is
+                                        known to be at least prev_end long) *)
 | VPanic.                          (* Model only: slice out of range / set_len beyond the length;
                                       never produced by the Spec *)
 
@@ -60,7 +63,10 @@ Definition spec_add (st : rstate) (f : frag) : verdict * rstate :=
            else (VOk, push (Some E))
        | None =>
            if f_mf f then (VOk, push None)
-           else if e <? hi (s_frags st) then (VLateEnd (hi (s_frags st)) e, st)
+           (* the announced total length lies below the largest offset received:
+              inconsistent with the fragments accepted so far, whatever the order
+              of arrival (the mirror image of "a fragment beyond the announced end") *)
+           else if e <? hi (s_frags st) then (VConflict (hi (s_frags st)) e, st)
            else (VOk, push (Some e))
        end.
 
@@ -102,19 +108,38 @@ Fixpoint spec_trace (st : rstate) (h : list frag) : list obs :=
 Definition spec_run (st : rstate) (h : list frag) : rstate :=
   fold_left (fun s f => snd (spec_add s f)) h st.
 
-(* ---- the known finding class F8: somewhere in the history the Spec rejects a
-   final fragment because data beyond its end was already accepted ---- *)
-Definition is_late (v : verdict) : bool := match v with VLateEnd _ _ => true | _ => false end.
+(* ---- the former finding class F8 (fixed in the crate; kept as a plain
+   definition for the regression examples): somewhere in the history a final
+   fragment is rejected because data beyond its end was accepted before the
+   total length was known ---- *)
+Definition is_late (st : rstate) (v : verdict) : bool :=
+  match s_end st, v with None, VConflict _ _ => true | _, _ => false end.
 
 Fixpoint late_in (st : rstate) (h : list frag) : bool :=
   match h with
   | [] => false
-  | f :: r => let '(v, st') := spec_add st f in is_late v || late_in st' r
+  | f :: r => let '(v, st') := spec_add st f in is_late st v || late_in st' r
   end.
 
-Definition KnownClass (h : list frag) : Prop := late_in spec_new h = true.
-Definition KnownClass_dec (h : list frag) : {KnownClass h} + {~ KnownClass h} :=
-  bool_dec (late_in spec_new h) true.
+Definition LateEndClass (h : list frag) : Prop := late_in spec_new h = true.
+
+(* ---- consistent sets of fragments (independent of the order of arrival) ---- *)
+(* acceptable on its own: within 65535 bytes, a non-final fragment has a length
+   that is a multiple of 8 *)
+Definition frag_wf (f : frag) : Prop :=
+  f_endp f <= MAX_DEFRAG_LEN /\ (f_mf f = true -> len (f_data f) mod 8 = 0).
+
+(* every final fragment ends at or beyond the end of every fragment (two final
+   fragments: the same end) *)
+Definition consistent (h : list frag) : Prop :=
+  Forall frag_wf h /\
+  forall f g, In f h -> In g h -> f_mf f = false -> f_endp g <= f_endp f.
+
+(* a final fragment was delivered and every offset below its end lies in some
+   delivered fragment *)
+Definition GCovered (h : list frag) : Prop :=
+  exists f, In f h /\ f_mf f = false /\
+  forall i, i < f_endp f -> exists g, In g h /\ f_off g <= i < f_endp g.
 
 (* ---- fragments of one payload P ---- *)
 (* f carries bytes [f_off f, f_endp f) of P; a non-final fragment has a length
